@@ -80,3 +80,34 @@ def must_pass(body, start, targets, through):
 def blocks_calling(body, *suffixes):
     from facts import callee_is
     return [bi for bi, t in body.calls() if callee_is(t, *suffixes)]
+
+
+def ordered_calls(b, names):
+    """the calls named (by path suffix) occur in this order on every path: each is present and no call of a later name can
+    reach (through the CFG) a call of an earlier name. Returns (ok, message)."""
+    from facts import callee_is
+    blocks = []
+    for nm in names:
+        bs = [bi for bi, t in b.calls() if callee_is(t, nm)]
+        if not bs:
+            return False, "%s is not called" % nm
+        blocks.append(bs)
+
+    def reaches(src, dst):
+        seen, todo = set(), list(b.succs(src))
+        while todo:
+            x = todo.pop()
+            if x == dst:
+                return True
+            if x in seen:
+                continue
+            seen.add(x)
+            todo.extend(b.succs(x))
+        return False
+    for i in range(len(names)):
+        for j in range(i + 1, len(names)):
+            for later in blocks[j]:
+                for earlier in blocks[i]:
+                    if later == earlier or reaches(later, earlier):
+                        return False, "%s can run before %s" % (names[j].split("::")[-1], names[i].split("::")[-1])
+    return True, " -> ".join(n.split("::")[-1] for n in names)
